@@ -206,7 +206,16 @@ def run(ctx):
         ctx.ob("R06.1", "explicit-order %s.%s@%s" % (base.get("name"), callee.get("name"), A.loc(x)[1]), okx, site=A.where(x), detail={"orders": orders},
                key="R06.1:explicit:%s.%s:%s" % (base.get("name"), callee.get("name"), ",".join(orders)),
                what="ring index `%s` is accessed with %s(%s)" % (base.get("name"), callee.get("name"), ", ".join(orders) or "run-time order"))
-    ctx.require_count("R06.1", 18)
+    # the floor: the access recogniser must have seen every shared index being loaded and being stored somewhere
+    # (how often is the code's business - reading an index once into a local removes accesses legitimately)
+    seen_acc = {"%s %s" % (kd, fl) for kd in ("atomic-load", "atomic-store") for fl in shared
+                if any(o.rule == "R06.1" and (":%s %s#" % (kd, fl)) in o.instance for o in ctx.obs)}
+    for fld in sorted(shared):
+        for kind in ("atomic-load", "atomic-store"):
+            if kind == "atomic-load" and fld == "read_lookahead":
+                continue       # only ever read through `lookahead ? &read_lookahead : &read`, which the recogniser attributes to neither
+            ctx.require("%s %s" % (kind, fld) in seen_acc or any(o.rule == "R06.1" and o.instance.startswith("explicit-order %s." % fld) for o in ctx.obs),
+                        "R06.1: no %s of ring index `%s` recognised - anchor moved or idiom not recognised" % (kind, fld))
 
     def fn_named(pat):
         for f in fns:
@@ -321,7 +330,14 @@ def run(ctx):
                         env = {ps[0]["id"]: 4096}
                         if len(ps) > 1:
                             env[ps[1]["id"]] = 0
-                        ev = FD.Eval(env=env, node_hook=hook)
+                        def call(name, vals, n):        # helpers of the unit (e.g. an index accessor) are evaluated in turn
+                            fns_ = [f_ for f_ in u.functions.get(name, []) if u.body(f_) is not None]
+                            if len(fns_) != 1:
+                                fns_ = [f_ for q_, fl in u.functions.items() if q_.endswith("::" + str(name)) for f_ in fl if u.body(f_) is not None]
+                            if len(fns_) == 1:
+                                return ev.call_function(u, fns_[0], vals)
+                            raise FD.Unknown("call to %s" % name, n)
+                        ev = FD.Eval(env=env, node_hook=hook, call=call)
                         try:
                             ev.run(u.body(fnq))
                             got = None
